@@ -720,6 +720,12 @@ impl HttpContext {
                             .data_opt(buf)
                             .and_then(|data| from_utf8(data).ok())
                             .map(ToOwned::to_owned);
+                    } else if compare_no_case(key, self.sozu_id_header.as_bytes()) {
+                        // The correlation header is Sōzu's own: the copy
+                        // pushed below carries this request's id. A
+                        // client-supplied field of the same name would
+                        // reach the backend next to it.
+                        header.elide();
                     } else if compare_no_case(key, b"X-Request-Id") {
                         // RFC: not standardized, but the de-facto correlation
                         // header used by Envoy/HAProxy/most LBs. Preserve the
